@@ -392,7 +392,7 @@ type vm struct {
 
 	maxCallStackSize int
 	// nativeDepth counts the nested calls that recurse in Go without a script frame: a native function called
-	// from Go code, a built-in walking a cyclic structure. It counts towards maxCallStackSize.
+	// from Go code, a built-in walking a cyclic structure. It is bounded by maxNativeDepth.
 	nativeDepth int
 
 	stashAllocs int
@@ -990,10 +990,15 @@ func (vm *vm) pushCtx() {
 	vm.saveCtx(ctx)
 }
 
-// enterNative accounts for one level of Go recursion that has no script frame (see vm.nativeDepth); each call
-// must be paired with leaveNative (deferred, because the stack overflow is a panic).
+// maxNativeDepth bounds the Go recursion that has no script frame and is therefore not limited by
+// SetMaxCallStackSize (a cycle of native functions calling each other, a built-in walking a cyclic structure):
+// beyond it a StackOverflowError is raised instead of letting the Go stack grow until the process dies.
+const maxNativeDepth = 10000
+
+// enterNative accounts for one level of such recursion (see vm.nativeDepth); each call must be paired with
+// leaveNative (deferred, because the stack overflow is a panic).
 func (vm *vm) enterNative() {
-	if len(vm.callStack)+vm.nativeDepth >= vm.maxCallStackSize {
+	if vm.nativeDepth >= maxNativeDepth {
 		ex := &StackOverflowError{}
 		ex.stack = vm.captureStack(nil, 0)
 		panic(ex)
